@@ -101,7 +101,19 @@ func c02TLS(w *kernel.World, cw *cryptoWorld) {
 	}
 	server, err1 := c02MakeCert("localhost", 2, ca, false, true)
 	certA, err2 := c02MakeCert("client A of the simulation", 3, ca, false, false)
-	certB, err3 := c02MakeCert("client B of the simulation", 4, ca, false, false)
+	// In half of the runs the service trusts two authorities (one per tenant) and the two clients hold
+	// certificates with the same serial number, one from each: serial numbers are unique per issuer only.
+	caB, serialB := ca, int64(4)
+	var err4 error
+	if kernel.NewRNG(w.Plan.Seed, 0x7c5a).Intn(2) == 1 {
+		caB, err4 = c02MakeCert("sim CA of another tenant", 1, nil, true, false)
+		serialB = 3
+	}
+	if err4 != nil {
+		fail("ca", err4)
+		return
+	}
+	certB, err3 := c02MakeCert("client B of the simulation", serialB, caB, false, false)
 	for _, e := range []error{err1, err2, err3} {
 		if e != nil {
 			fail("certificates", e)
@@ -110,6 +122,7 @@ func c02TLS(w *kernel.World, cw *cryptoWorld) {
 	}
 	pool := x509.NewCertPool()
 	pool.AddCert(ca.cert)
+	pool.AddCert(caB.cert)
 	extractor, err := network.NewDefaultTLSClientIDExtractor()
 	if err != nil {
 		fail("extractor", err)
